@@ -174,6 +174,7 @@ package flow
 // ---- C13: whole-set load. The grouping loop must cope with any element, including nil; the rebuild itself
 // (onRuleUpdate) is under a separate contract.
 //@ func onRuleUpdate(rawResRulesMap) err
+//@   requires[holds-the-update-lock]{C15} wlockcount(updateRuleMux) > 0
 //@   assumed
 //@   modifies heap
 //@ func LoadRules(rules) (changed, err)
@@ -230,3 +231,14 @@ package flow
 //@   assumed
 //@   ensures gFlowClearN == old(gFlowClearN) + 1
 //@   modifies gFlowClearN
+
+// ---- C15: lock discipline of the rule tables (a load, store or use of the variable outside its lock is a data race)
+//@ guarded tcMap by tcMux {C15}
+//@ guarded currentRules by updateRuleMux {C15}
+
+// called by LoadRulesOfResource with the update lock held (C15); its effect is not specified here
+//@ func onResourceRuleUpdate(res, rawResRules) err
+//@   assumed
+//@   requires[holds-the-update-lock]{C15} wlockcount(updateRuleMux) > 0
+//@   modifies heap
+//@ lockorder updateRuleMux tcMux {C15}
